@@ -268,9 +268,18 @@ def mass_pair(cfg):
     g = np.random.default_rng(30_000 + cfg["pair"]["id"])
     kind = cfg["pair"]["kind"]
     n = int(np.prod(shape))
+    if kind == "explicit":
+        # literal masses (regression cases taken from reports); must have equal sums
+        return (np.array(cfg["pair"]["a"], dtype=float).reshape(shape), np.array(cfg["pair"]["b"], dtype=float).reshape(shape))
     if kind == "dense":
         a = g.uniform(0.2, 1.0, size=shape)
         b = g.uniform(0.2, 1.0, size=shape)
+    elif kind == "dense01":
+        # values all over [0, 1] (two decimals): mass differences of either sign and of the size of the masses
+        a = np.round(g.uniform(0.0, 1.0, size=shape), 2)
+        b = np.round(g.uniform(0.0, 1.0, size=shape), 2)
+        sc = float(cfg["pair"].get("scale", 1.0))
+        return sc * a, sc * b * (a.sum() / b.sum())  # equal mass by proportion (to round-off), no single adjusted cell
     elif kind == "compact":
         a = np.zeros(n)
         b = np.zeros(n)
@@ -684,7 +693,7 @@ class C04Engine(Engine):
         big = tier == "thorough"
         dim = r.choice([1, 2, 2, 2, 3])
         if dim == 1:
-            shape = [r.randint(2, 12 if big else 7)]
+            shape = [r.randint(2, 12)]
         elif dim == 2:
             shape = [r.randint(1, 7 if big else 5), r.randint(1, 7 if big else 5)]
             if shape[0] * shape[1] < 2:
@@ -700,7 +709,7 @@ class C04Engine(Engine):
                                        else [r.choice([50.0, 1e3]) for _ in range(dim)]),
             "l1_mode": r.choice(sorted(L1)), "mobility_mode": r.choice(MOB),
             "num_iter": r.randint(1, 10 if big else 7),
-            "aa_depth": r.choice([0, 0, 1, 2, 3]), "aa_restart": r.choice([None, None, 2, 3, 4]),
+            "aa_depth": r.choice([0, 0, 1, 2, 3, 5]), "aa_restart": r.choice([None, None, 2, 3, 4]),
             "pair": {"kind": r.choice(["dense", "dense", "compact", "single"]), "id": r.randint(0, 9999)},
         }
         if r.random() < 0.3:
@@ -776,12 +785,46 @@ class C04Engine(Engine):
             for k in ("update_every", "weight", "max_coarse", "ls_options", "warm", "verbose", "L", "amg_default"):
                 cfg.pop(k, None)
             dim = 2
+        aa_run = 58 <= i < 64 or substream(seed, "profile5").random() < 0.02
+        if aa_run and not long_run:
+            # Anderson acceleration on (nearly) one-dimensional problems: after about as many iterations as there are
+            # faces the stored increments become linearly dependent (D44); every iterate is inspected through a fault
+            # right behind it
+            p5 = substream(seed, "profile5b")
+            n1 = p5.randint(8, 12)
+            cfg.update(shape=p5.choice([[n1], [n1], [n1, 1], [1, n1], [p5.randint(3, 5), p5.randint(2, 4)]]),
+                       method=p5.choice(["bregman", "bregman", "bregman-adaptive", "newton"]), linear_solver="direct",
+                       formulation=p5.choice(["pressure", "pressure", "full", "flux_reduced"]),
+                       aa_depth=p5.choice([3, 5, 5, 8]), aa_restart=p5.choice([None, None, 5]), num_iter=p5.randint(9, 14),
+                       l1_mode=p5.choice(sorted(L1)), mobility_mode=p5.choice(["CELL_BASED", "CELL_BASED", "CELL_BASED_ARITHMETIC"]),
+                       tol_residual=1e-300, tol_increment=1e-300, tol_distance=1e-300)
+            if 58 <= i < 64:
+                # the six stratified slots stay in the sensitive family: fixed Bregman on ~10 cells in a row, all iterates
+                # up to 24 inspected (about one configuration in five has a spoiled iterate on the pre-D44 code)
+                j5 = i - 58
+                cfg.update(shape=[[10], [9], [11], [12], [10, 1], [1, 10]][j5], method="bregman", num_iter=24,
+                           aa_depth=[5, 5, 3, 5, 8, 5][j5], aa_restart=None, formulation=["pressure", "full"][j5 % 2],
+                           l1_mode="raviart_thomas", mobility_mode="CELL_BASED")
+            cfg["voxel_size"] = [p5.choice([0.5, 1.0, 1.0, 2.0]) for _ in cfg["shape"]]
+            cfg["pair"] = {"kind": p5.choice(["dense01", "dense01", "dense"]), "id": p5.randint(0, 9999)}
+            if cfg["method"] == "bregman-adaptive":
+                cfg["update_every"] = p5.choice([2, 3])
+            else:
+                cfg.pop("update_every", None)
+            for k in ("weight", "max_coarse", "ls_options", "warm", "verbose", "amg_default"):
+                cfg.pop(k, None)
+            dim = len(cfg["shape"])
         e = substream(seed, "env")
         env = {"tracemalloc": "real" if e.random() < 0.1 else "stub", "np_seed": e.randint(0, 2**31)}
         if e.random() < 0.5:
             env["clock_jumps"] = [[e.randint(0, 60), e.choice([-3600.0, -1.0, 0.0, 86400.0])] for _ in range(e.randint(1, 3))]
         case = {"engine": self.name, "seed": seed, "config": cfg, "faults": "all", "env": env,
                 "forms": substream(seed, "workload").random() < 0.35}
+        if aa_run and not long_run:
+            case["faults"] = [{"site": "bookkeeping", "occurrence": k, "exc": EXC_TYPES[k % len(EXC_TYPES)]}
+                              for k in range(1, cfg["num_iter"] + 1)]
+            case["forms"] = False
+            case.pop("prelude", None)
         if long_run:
             p4 = substream(seed, "profile4c")
             case["faults"] = [{"site": p4.choice(SITES), "occurrence": p4.randint(1, cfg["num_iter"]),
